@@ -174,6 +174,7 @@ fn budget(prop: &str, tier: &str, seed: u64, scale: f64) -> Budget {
             sweeps.push(sweeps::c05_base256_lengths(seed, if quick { 600 } else { 1600 }));
             if checked {
                 sweeps.push(sweeps::small_geometry("C05", if quick { 200 } else { 1300 }, if quick { 40 } else { 150 }));
+                sweeps.push(sweeps::dimension_aliases("C05", seed));
             }
         }
         "C08" => {
@@ -182,6 +183,7 @@ fn budget(prop: &str, tier: &str, seed: u64, scale: f64) -> Budget {
                 sweeps.push(sweeps::c08_single_pixel(seed, if quick { 1 } else { 16 }));
                 sweeps.push(sweeps::small_geometry("C08", if quick { 330 } else { 1300 }, if quick { 40 } else { 150 }));
                 sweeps.push(sweeps::c08_track_faults(seed));
+                sweeps.push(sweeps::dimension_aliases("C08", seed));
             }
         }
         _ => {
